@@ -13,8 +13,8 @@ let hex_of_rgba (c : rgba) : string =
 let color_of_tok (s : string) : color =
   match s.[0] with
   | '#' -> CRGBA (rgba_of_hex (String.sub s 1 8))
-  | 'p' -> CPal (z_of_int (int_of_string (String.sub s 1 (String.length s - 1))))
-  | 'c' -> CCReg (z_of_int (int_of_string (String.sub s 1 (String.length s - 1))))
+  | 'p' -> palette_index_color (z_of_int (int_of_string (String.sub s 1 (String.length s - 1))))
+  | 'c' -> creg_color (z_of_int (int_of_string (String.sub s 1 (String.length s - 1))))
   | 'b' -> CBlend (hex2 s 1, hex2 s 3, hex2 s 5)
   | _ -> failwith ("bad color " ^ s)
 
